@@ -31,7 +31,7 @@ class Unsupported(Exception):
 # types
 
 F, I, B = "F", "I", "B"
-VEC = {"V2": 2, "V3": 3, "V4": 4, "V5": 5, "V6": 6, "V10": 10, "Q": 4}
+VEC = {"V2": 2, "V3": 3, "V4": 4, "V5": 5, "V6": 6, "V8": 8, "V10": 10, "V11": 11, "Q": 4}
 IVEC = {"I2": 2, "I3": 3, "I4": 4, "I6": 6}
 MAT = {"M22": (2, 2, "V2"), "M33": (3, 3, "V3")}
 
@@ -77,7 +77,8 @@ _ANN = {
   "wp.quat": "Q", "wp.quatf": "Q", "wp.mat33": "M33", "wp.mat33f": "M33", "wp.mat22": "M22", "wp.mat22f": "M22",
   "wp.spatial_vector": "V6", "wp.spatial_vectorf": "V6",
   "vec5": "V5", "types.vec5": "V5", "vec6": "V6", "types.vec6": "V6", "vec10": "V10", "types.vec10": "V10",
-  "vec10f": "V10", "types.vec10f": "V10",
+  "vec10f": "V10", "types.vec10f": "V10", "vec8": "V8", "vec8f": "V8", "types.vec8": "V8", "types.vec8f": "V8",
+  "vec11": "V11", "vec11f": "V11", "types.vec11": "V11", "types.vec11f": "V11", "vec5f": "V5", "vec6f": "V6", "types.vec6f": "V6", "types.vec5f": "V5",
   "wp.vec2i": "I2", "wp.vec3i": "I3", "wp.vec4i": "I4", "vec6i": "I6", "types.vec6i": "I6",
 }
 
@@ -153,6 +154,8 @@ class FuncTranslator:
     self.arr_params = {}
     self.written_arrays = set()
     self.static_exprs = {}
+    self.rv_init = None
+    self.retf_init = False
 
   def err(self, node, msg):
     raise Unsupported(f"{self.mod.pyname}.{self.name}:{getattr(node, 'lineno', '?')}: {msg}")
@@ -250,7 +253,7 @@ class FuncTranslator:
           return f"({t}.neg {a})", t
         self.err(node, f"neg of {t}")
       if isinstance(node.op, ast.Not):
-        a, t = self.expr(node.operand, env)
+        a, t = self.expr(node.operand, env, "COND")
         a = self.as_bool(a, t, node)
         return f"(!{a})", B
       if isinstance(node.op, ast.UAdd):
@@ -265,14 +268,14 @@ class FuncTranslator:
     if isinstance(node, ast.BoolOp):
       parts = []
       for v in node.values:
-        a, t = self.expr(v, env)
+        a, t = self.expr(v, env, "COND")
         parts.append(self.as_bool(a, t, v))
       op = " && " if isinstance(node.op, ast.And) else " || "
       return "(" + op.join(parts) + ")", B
     if isinstance(node, ast.Compare):
       return self.compare(node, env)
     if isinstance(node, ast.IfExp):
-      c, ct = self.expr(node.test, env)
+      c, ct = self.expr(node.test, env, "COND")
       c = self.as_bool(c, ct, node)
       a, ta = self.expr(node.body, env, want)
       b, tb = self.expr(node.orelse, env, want or ta)
@@ -305,7 +308,7 @@ class FuncTranslator:
       import warp as wp
       if hasattr(v, "_length_") and hasattr(v, "__getitem__"):
         n = len(v)
-        name = {2: "V2", 3: "V3", 4: "V4", 5: "V5", 6: "V6", 10: "V10"}.get(n)
+        name = {2: "V2", 3: "V3", 4: "V4", 5: "V5", 6: "V6", 8: "V8", 10: "V10", 11: "V11"}.get(n)
         if type(v).__name__.startswith("quat"):
           name = "Q"
         if name:
@@ -339,6 +342,14 @@ class FuncTranslator:
   def binop(self, node, env, want):
     op = type(node.op)
     a, ta, b, tb = self.coerce_pair(node.left, node.right, env, want if want in (F, I) else None)
+    if ta == I and tb == F:
+      a, ta = f"(Scalar.ofInt {a} : K)", F
+    elif ta == F and tb == I:
+      b, tb = f"(Scalar.ofInt {b} : K)", F
+    if ta == I and tb == B:
+      b, tb = f"(if {b} then (1 : Int) else 0)", I
+    elif ta == B and tb == I:
+      a, ta = f"(if {a} then (1 : Int) else 0)", I
     sym = {ast.Add: "+", ast.Sub: "-", ast.Mult: "*", ast.Div: "/"}.get(op)
     if ta == F and tb == F:
       if sym:
@@ -456,6 +467,8 @@ class FuncTranslator:
         root, prefix = self.alias.get(node.value.id, (node.value.id, []))
         if root in self.written_arrays and "ws" in env.types:
           fnm = {F: "lookupF", I: "lookupI", B: "lookupB"}.get(tb[1])
+          if fnm is None and tb[1] in VEC:
+            return f"({tb[1]}.ofList (Write.lookupV ws \"{root}\" [{', '.join(prefix + parts)}] ({tb[1]}.toList {plain})))", tb[1]
           if fnm is None:
             self.err(node, f"read of an array of {tb[1]} that this thread also writes")
           return f"(Write.{fnm} ws \"{root}\" [{', '.join(prefix + parts)}] {plain})", tb[1]
@@ -535,6 +548,7 @@ class FuncTranslator:
     # constructors
     ctor = {"wp.vec2": "V2", "wp.vec2f": "V2", "wp.vec3": "V3", "wp.vec3f": "V3", "wp.vec4": "V4", "wp.vec4f": "V4", "wp.quat": "Q", "wp.quatf": "Q",
             "vec5": "V5", "types.vec5": "V5", "vec6": "V6", "types.vec6": "V6", "vec10": "V10", "types.vec10": "V10", "vec10f": "V10",
+            "vec8": "V8", "vec8f": "V8", "types.vec8": "V8", "vec11": "V11", "types.vec11": "V11", "vec11f": "V11",
             "wp.spatial_vector": "V6", "wp.spatial_vectorf": "V6"}.get(fn)
     if ctor:
       n = VEC[ctor]
@@ -623,7 +637,7 @@ class FuncTranslator:
       if v is None and getattr(self, "is_nested", False):
         import re as _re
         nm = "st_" + _re.sub(r"[^A-Za-z0-9]+", "_", ast.unparse(args[0])).strip("_")[:40]
-        ty = "Int" if want == I else "Bool"
+        ty = "Bool" if want == "COND" else "Int"
         if (nm, ty) not in self.extra_params:
           self.extra_params.append((nm, ty))
         self.static_exprs[nm] = ast.unparse(args[0])
@@ -651,6 +665,11 @@ class FuncTranslator:
       if ta in VEC and tb == ta and fn in ("wp.min", "wp.max"):
         return f"({ta}.v{sc2[fn]} {a} {b})", ta
       self.err(node, f"{fn} of {ta},{tb}")
+    if fn == "wp.isnan":
+      (a, t), = self.float_args(args, env)
+      if t == F:
+        return f"(Scalar.isnan {a})", B
+      self.err(node, "isnan")
     if fn == "wp.clamp":
       parts = self.float_args(args, env)
       if all(t == F for _, t in parts):
@@ -878,14 +897,19 @@ class FuncTranslator:
     if isinstance(s, ast.Continue):
       if not self.loop_stack:
         self.err(s, "continue outside loop")
-      return self.loop_stack[-1](env, False)
+      return self.loop_stack[-1](env, False, ret=None)
     if isinstance(s, ast.Break):
       if not self.loop_stack:
         self.err(s, "break outside loop")
-      return self.loop_stack[-1](env, True)
+      return self.loop_stack[-1](env, True, ret=None)
+    if isinstance(s, ast.Return) and self.loop_stack:
+      if s.value is None:
+        return self.loop_stack[-1](env, True, ret="ws")
+      e, t = self.expr(s.value, env, self.ret_type if self.ret_type in (F, I) else None)
+      if self.ret_type is None or isinstance(self.ret_type, tuple) or t != self.ret_type:
+        self.err(s, "return of a non-scalar / untyped value inside a dynamic loop")
+      return self.loop_stack[-1](env, True, ret=e)
     if isinstance(s, ast.Return):
-      if self.loop_stack:
-        self.err(s, "return inside a dynamic loop")
       if s.value is None:
         if self.ret_type in (None, "WS") and (self.kernel or self.writes):
           self.ret_type = "WS"
@@ -929,7 +953,7 @@ class FuncTranslator:
         v = self.py_eval(s.test, env)
         if isinstance(v, (bool, int)) and any(n in env.consts for n in names):
           return self.stmts((list(s.body) if v else list(s.orelse)) + rest, env, tail, depth)
-      c, ct = self.expr(s.test, env)
+      c, ct = self.expr(s.test, env, "COND")
       c = self.as_bool(c, ct, s)
       if self.contains_return(s.body) or self.contains_return(s.orelse):
         e1 = self.stmts(list(s.body) + rest, env.copy(), tail, depth + 1)
@@ -987,8 +1011,7 @@ class FuncTranslator:
 
   def dyn_loop(self, s, rest, env: Env, tail, depth, is_while):
     ind = "  "
-    if self.has_real_return(s.body):
-      self.err(s, "return inside a dynamic loop")
+    has_ret = self.has_real_return(s.body)
     if s.orelse:
       self.err(s, "loop else")
     has_break = False
@@ -1000,6 +1023,7 @@ class FuncTranslator:
         elif isinstance(n, ast.If):
           find_break(n.body); find_break(n.orelse)
     find_break(s.body)
+    has_break = has_break or has_ret
     assigned = self.assigned_names(s.body, env)
     state = [(n, env.types[n]) for n in assigned if n in env.types and not (isinstance(env.types[n], tuple) and env.types[n][0] == "arr")]
     self.fresh += 1
@@ -1007,6 +1031,22 @@ class FuncTranslator:
     if has_break:
       state.append((brk, B))
       env.types[brk] = B
+    rv_t = None
+    if has_ret:
+      if "retf" not in env.types:
+        env.types["retf"] = B
+        self.retf_init = True
+      if not any(n == "retf" for n, _ in state):
+        state.append(("retf", B))
+      if not (self.kernel or self.ret_type == "WS" or (self.writes and self.ret_type is None)):
+        rv_t = self.ret_type
+        if rv_t is None or isinstance(rv_t, tuple):
+          self.err(s, "return of an untyped/tuple value inside a dynamic loop")
+        if "rv" not in env.types:
+          env.types["rv"] = rv_t
+          self.rv_init = rv_t
+        if not any(n == "rv" for n, _ in state):
+          state.append(("rv", rv_t))
     if not state:
       return self.stmts(rest, env, tail, depth)
     for n, _ in state:
@@ -1015,8 +1055,15 @@ class FuncTranslator:
     pat = self.mod.lname(state[0][0]) if len(state) == 1 else "(" + ", ".join(self.mod.lname(n) for n, _ in state) + ")"
     init = self.state_tuple(state, env, {brk: "false"} if has_break else None)
 
-    def loop_tail(e, is_break):
-      return self.state_tuple(state, e, {brk: "true"} if (is_break and has_break) else None)
+    def loop_tail(e, is_break, ret=None):
+      ov = {}
+      if is_break and has_break:
+        ov[brk] = "true"
+      if ret is not None:
+        ov["retf"] = "true"
+        if ret != "ws":
+          ov["rv"] = ret
+      return self.state_tuple(state, e, ov or None)
 
     env_b = env.copy()
     if not is_while:
@@ -1029,10 +1076,11 @@ class FuncTranslator:
       elif len(args) == 2:
         lo, hi = self.int_expr(args[0], env), self.int_expr(args[1], env)
       else:
-        self.err(s, "range with step in dynamic loop")
+        lo, hi = self.int_expr(args[0], env), self.int_expr(args[1], env) + " " + self.int_expr(args[2], env)
+      step_loop = len(args) == 3
     self.loop_stack.append(loop_tail)
     try:
-      body = self.stmts(list(s.body), env_b, tail=lambda e: loop_tail(e, False), depth=depth + 1)
+      body = self.stmts(list(s.body), env_b, tail=lambda e: loop_tail(e, False, None), depth=depth + 1)
     finally:
       self.loop_stack.pop()
     for n, t in state:
@@ -1050,9 +1098,17 @@ class FuncTranslator:
     else:
       if has_break:
         body = f"if {brk} then st else\n{body}"
-      loop = (f"Mjw.forRange {lo} {hi} {init} (fun ({self.mod.lname(s.target.id)} : Int) (st : {st_type}) =>\n    let {pat} := st\n"
+      loop = (f"Mjw.{'forRangeStep' if step_loop else 'forRange'} {lo} {hi} {init} (fun ({self.mod.lname(s.target.id)} : Int) (st : {st_type}) =>\n    let {pat} := st\n"
               f"{textwrap.indent(body, ind * 2)})")
     cont = self.stmts(rest, env, tail, depth)
+    if has_ret:
+      if self.loop_stack:
+        out_ret = self.loop_stack[-1](env, True, ret=("rv" if rv_t is not None else "ws"))
+      elif rv_t is not None:
+        out_ret = "(rv, ws)" if (self.writes and not self.kernel) else "rv"
+      else:
+        out_ret = "ws"
+      cont = f"if retf then {out_ret} else\n{cont}"
     return f"let {pat} := {loop}\n{cont}"
 
   def scan_written(self):
@@ -1079,8 +1135,12 @@ class FuncTranslator:
         for t in tgts:
           if isinstance(t, ast.Subscript) and isinstance(t.value, ast.Name) and t.value.id in views:
             out.add(views[t.value.id])
-      elif isinstance(n, ast.Call) and ast.unparse(n.func).startswith("wp.atomic_") and n.args and isinstance(n.args[0], ast.Name) and n.args[0].id in views:
-        out.add(views[n.args[0].id])
+      elif isinstance(n, ast.Call) and ast.unparse(n.func).startswith("wp.atomic_") and n.args:
+        a0 = n.args[0]
+        if isinstance(a0, ast.Subscript):
+          a0 = a0.value
+        if isinstance(a0, ast.Name) and a0.id in views:
+          out.add(views[a0.id])
     return out
 
   def write_val(self, e, t, node):
@@ -1132,13 +1192,18 @@ class FuncTranslator:
     if kind not in ("add", "sub", "min", "max", "or", "and"):
       self.err(call, fn)
     arr = call.args[0]
+    extra_prefix = []
+    if isinstance(arr, ast.Subscript) and isinstance(arr.value, ast.Name):
+      ix = arr.slice
+      extra_prefix = list(ix.elts) if isinstance(ix, ast.Tuple) else [ix]
+      arr = arr.value
     if not isinstance(arr, ast.Name):
       self.err(call, "atomic on non-name")
     t = env.types.get(arr.id)
     if not (isinstance(t, tuple) and t[0] == "arr"):
       self.err(call, "atomic on non-array")
     root, prefix = self.alias.get(arr.id, (arr.id, []))
-    idxs = prefix + [self.int_expr(a, env) for a in call.args[1:-1]]
+    idxs = prefix + [self.int_expr(a, env) for a in extra_prefix] + [self.int_expr(a, env) for a in call.args[1:-1]]
     if len(idxs) != t[2] + len(prefix):
       self.err(call, "atomic index arity")
     v, tv = self.expr(call.args[-1], env, t[1] if t[1] in (F, I) else None)
@@ -1192,11 +1257,14 @@ class FuncTranslator:
       self.fresh += 1
       an = f"alloc{len([1 for n, _ in self.extra_params if n.startswith('alloc')])}"
       arr = value.args[0]
+      if isinstance(arr, ast.Subscript) and isinstance(arr.value, ast.Name):
+        arr = arr.value
       t = env.types.get(arr.id) if isinstance(arr, ast.Name) else None
       if not (isinstance(t, tuple) and t[0] == "arr"):
         self.err(s, "atomic on non-array")
       self.extra_params.append((an, lean_type(t[1])))
       w = self.atomic(value, env, an)
+      w = w.replace("WKind.aadd", "WKind.alloc")
       env.types[target.id] = t[1]
       env.consts.pop(target.id, None)
       return [w, f"let {self.mod.lname(target.id)} : {lean_type(t[1])} := {an}"]
@@ -1339,6 +1407,12 @@ class FuncTranslator:
     rt = self.ret_type
     if self.writes and not self.kernel and rt != "WS":
       rt = ("tuple", (rt, "WS"))
+    if getattr(self, "retf_init", False):
+      body = "let retf : Bool := false\n" + body
+      if "rv" in env.types or True:
+        pass
+    if self.rv_init is not None:
+      body = f"let rv : {lean_type(self.rv_init)} := {zero_of(self.rv_init)}\n" + body
     if self.writes:
       body = "let ws : List (Write K) := []\n" + body
     sig = " ".join(f"({self.mod.lname(n)} : {lean_type(t)})" for n, t in params)
